@@ -1188,9 +1188,14 @@ func EvalProgram(progSrc string, files []InputFile, rootSelectors []string, stdo
 	for _, file := range files {
 		// for each json value
 		d := json.NewDecoder(file.Reader)
-		for d.More() {
+		for {
 			var rootValue any
 			err := d.Decode(&rootValue)
+			if err == io.EOF {
+				// clean end of input. anything else that stops the decoder
+				// (stray text, a truncated value, a failing reader) is an error
+				break
+			}
 			if err != nil {
 				return &ev, JsonError{err.Error(), file.Name}
 			}
